@@ -80,6 +80,33 @@ func TestC17(t *testing.T) {
 			pair.New.Normalize()
 			Ev.Probe("new_build_with_many_more_files_than_old")
 		}
+		family := rapid.IntRange(0, 5).Draw(rt, "family") == 0 && canPlace(pair.Old, "fam/x.bin") && canPlace(pair.New, "fam/a.bin")
+		if family {
+			// two old files of one size; three new files, the first derived from one of them, the other
+			// two from the other one (an optimized patch then has bsdiff series against X, Y, Y)
+			sz := rapid.SampledFrom([]int{70000, 2 * BlockSize, 150001, 300 * KiB}).Draw(rt, "famsize")
+			fs := rapid.Uint64().Draw(rt, "famseed")
+			x, y := Bytes(fs, sz), Bytes(fs+1, sz)
+			edit := func(b []byte, seed uint64) []byte {
+				out := append([]byte{}, b...)
+				r := NewRng(seed)
+				for k := 0; k < 4; k++ {
+					o := r.Intn(len(out) - 40)
+					copy(out[o:o+30], Bytes(seed+uint64(k), 30))
+				}
+				return out
+			}
+			pair.Old["fam/x.bin"], pair.Old["fam/y.bin"] = &Entry{Kind: KFile, Data: x}, &Entry{Kind: KFile, Data: y}
+			pair.New["fam/a.bin"] = &Entry{Kind: KFile, Data: edit(x, fs+10)}
+			pair.New["fam/b.bin"] = &Entry{Kind: KFile, Data: edit(y, fs+20)}
+			pair.New["fam/c.bin"] = &Entry{Kind: KFile, Data: edit(y, fs+30)}
+			for _, p := range []string{"fam/a.bin", "fam/b.bin", "fam/c.bin"} {
+				pair.Meta[p] = FileMeta{From: map[string]string{"fam/a.bin": "fam/x.bin"}[p] + map[string]string{"fam/b.bin": "fam/y.bin", "fam/c.bin": "fam/y.bin"}[p], Edits: 4, Introduced: 120, Op: "family"}
+			}
+			pair.Old.Normalize()
+			pair.New.Normalize()
+			Ev.Probe("new_files_derived_from_two_old_files_of_one_size")
+		}
 		dir, cleanup := RunDir()
 		defer cleanup()
 		oldDir, newDir, outDir := filepath.Join(dir, "old"), filepath.Join(dir, "new"), filepath.Join(dir, "out")
@@ -103,6 +130,16 @@ func TestC17(t *testing.T) {
 			default:
 				if rapid.Bool().Draw(rt, "wl") {
 					wl[int64(i)] = true
+				}
+			}
+		}
+		if family && rapid.IntRange(0, 3).Draw(rt, "famskipmiddle") != 0 {
+			for i, f := range source.Files {
+				switch f.Path {
+				case "fam/a.bin", "fam/c.bin":
+					wl[int64(i)] = true
+				case "fam/b.bin":
+					delete(wl, int64(i))
 				}
 			}
 		}
